@@ -36,7 +36,7 @@ PROPERTY_PARTS = {
     "C12": ["tlv.main"],
     "C03": ["pipe.design", "pipe.random"],
     "C04": ["pipe.design", "pipe.random"],
-    "C05": ["pipe.design", "pipe.random", "codec.small", "codec.prod"],
+    "C05": ["pipe.design", "pipe.random", "codec.small", "codec.prod", "stream.main"],
     "C20": ["pipe.design", "pipe.random"],
     "C10": ["pipe.design", "pipe.random", "codec.footprint", "codec.small", "codec.prod", "stream.main"],
     "C06": ["stream.main"],
